@@ -115,16 +115,33 @@ def assoc_header_ints(pv: int, r1: int, r2: int, w0: int, w7: int, n: int) -> bo
     return ok
 
 
-@cond(bounds='A-ASSOCIATE-RQ header: called and calling AE titles with symbolic content, 0..2 chars each (quick) / '
-             '0..3 (thorough), printable ASCII per validity predicate', timeout=120, thorough_timeout=600)
-def assoc_header_titles(called: str, calling: str) -> bool:
+MULTI = ['A B', 'A  B', 'AB', 'A~', '~ ~ ~', 'a b c d e f g h', 'ABCDEFGHIJKLMNO', 'ABCDEFGHIJKLMNOP', 'x' * 15 + '~',
+         'A' + ' ' * 14 + 'B']
+
+
+@cond(bounds='A-ASSOCIATE-RQ header: called / calling AE title (one at a time, the other concrete) = prefix + one symbolic '
+             'character (any printable ASCII per the validity predicate) + suffix, prefix / suffix taken from 10 titles '
+             'with inner spaces / full width cut at a position given per instance (the byte-wise strip / pad code '
+             'makes CrossHair enumerate the 95 values of every symbolic character, so one character is symbolic at a time)',
+      family=lambda tr: [dict(which=w, n=n) for w in (0, 1) for n in ((0, 1, 2, 3) if tr == 'thorough' else (0, 1))],
+      timeout=240, thorough_timeout=900,
+      outside='AE titles with two or more simultaneously symbolic characters')
+def assoc_header_titles(t: str, m: int) -> bool:
     """
-    pre: len(called) <= _tl() and len(calling) <= _tl() and ae_title_ok(called) and ae_title_ok(calling)
+    pre: len(t) == min(fam('n'), 1) and (fam('n') < 2 or 0 <= m < len(MULTI)) and (fam('n') >= 2 or m == 0)
     post: _
     """
+    n = fam('n')
+    if n >= 2:
+        base = MULTI[pick(m, 0, len(MULTI) - 1)]
+        cut = 0 if n == 2 else len(base) - 1            # the symbolic character replaces the first / the last one
+        t = base[:cut] + t + base[cut + 1:]
+    if not ae_title_ok(t):
+        return True
+    called, calling = (t, 'CALLING AE') if fam('which') == 0 else ('CALLED', t)
     x = pdu.AAssociateRqPDU(called, calling, [])
     ok = rt_pdu(pdu.AAssociateRqPDU, x)
-    deep(ok and len(called) == 2 and len(calling) == 1)
+    deep(ok)
     return ok
 
 
